@@ -31,6 +31,9 @@ use std::path::Path;
 
 pub mod filedb;
 
+#[cfg(feature = "verif_hooks")]
+pub mod verif_hooks;
+
 pub use filedb::{DbBytes, DbI64, DbString, DbU64, DbVu64};
 pub use filedb::{DbXxxIter, DbXxxIterMut, DbXxxKeys, DbXxxValues};
 
